@@ -16,6 +16,10 @@ specification side: `Abra.Lex.escape`/`spellQuoted` (`AbraModel/Literals.lean`, 
 * `C30_scan_finds_close` — on a printed literal the closing quote found is the one the printer wrote
   (the first unescaped one); `C30_quoted_roundtrip` — hence `'…'`/`"…"` literals lex to `s` and are
   consumed exactly.
+* `C30_minIndent_is_min`, `C30_dropCols_spec`, `C30_assemble_each_line` — for arbitrary per-line mixes of
+  spaces and tabs: the common indentation is the minimum of the flat measure (space 1, tab 4) over the
+  non-blank lines, stripping removes leading blanks counted the same way and nothing else, and the
+  text is every line minus that prefix, joined by `\n`.
 * `C30_strip_spec` — a triple-quoted literal in block form denotes its lines with exactly the common
   indentation (spaces and/or tabs) removed, joined by `\n` (`C30_strip_spec_partial` is the stage
   after line collection).
@@ -345,6 +349,152 @@ theorem C30_strip_spec_partial (ind : List Char) (hind : IsIndent ind) (ls : Lis
   simp only [h1, assemble, Option.getD_some]
   exact assemble_go ind hind ls true
 
+
+-- ---------------------------------------------------------------- triple-quoted: measure and strip, arbitrary per-line indentation
+
+def MLine.isEmptyKind : MLine → Bool
+  | .empty _ => true
+  | _ => false
+
+theorem go_of_empty (l : MLine) (ls : List MLine) (hk : l.isEmptyKind = true) :
+    minIndent.go (l :: ls) false = minIndent.go ls false := by
+  cases l with
+  | empty s => exact go_empty s ls false
+  | _ => simp [MLine.isEmptyKind] at hk
+
+theorem go_of_nonempty (l : MLine) (ls : List MLine) (hk : l.isEmptyKind = false) :
+    minIndent.go (l :: ls) false =
+      match minIndent.go ls false with
+      | none => some (indentOf l.content)
+      | some m => some (min (indentOf l.content) m) := by
+  cases l with
+  | empty s => simp [MLine.isEmptyKind] at hk
+  | endsNewline s => exact go_nl s ls
+  | endsTriple s =>
+    rw [minIndent.go]
+    · simp only [MLine.content, Bool.false_eq_true, if_false]
+      cases minIndent.go ls false <;> rfl
+    · intro s' h; cases h
+
+theorem go_none (ls : List MLine) (h : minIndent.go ls false = none) : ∀ l ∈ ls, l.isEmptyKind = true := by
+  induction ls with
+  | nil => intro l hl; simp at hl
+  | cons l ls ih =>
+    cases hk : l.isEmptyKind with
+    | true =>
+      rw [go_of_empty l ls hk] at h
+      intro x hx
+      rcases List.mem_cons.mp hx with rfl | hx
+      · exact hk
+      · exact ih h x hx
+    | false =>
+      rw [go_of_nonempty l ls hk] at h
+      cases hr : minIndent.go ls false <;> simp [hr] at h
+
+/-- **The measure.** The common indentation is the minimum, over the non-blank lines, of the flat
+    measure of their leading blanks (1 per space, 4 per tab — the same count the stripping uses). -/
+theorem C30_minIndent_is_min (ls : List MLine) (m : Nat) (h : minIndent.go ls false = some m) :
+    (∀ l ∈ ls, l.isEmptyKind = false → m ≤ indentOf l.content) ∧
+    (∃ l ∈ ls, l.isEmptyKind = false ∧ indentOf l.content = m) := by
+  induction ls generalizing m with
+  | nil => simp [minIndent.go] at h
+  | cons l ls ih =>
+    cases hk : l.isEmptyKind with
+    | true =>
+      rw [go_of_empty l ls hk] at h
+      obtain ⟨h1, l', hl', h2⟩ := ih m h
+      refine ⟨fun x hx hx2 => ?_, l', List.mem_cons_of_mem _ hl', h2⟩
+      rcases List.mem_cons.mp hx with rfl | hx
+      · rw [hk] at hx2; cases hx2
+      · exact h1 x hx hx2
+    | false =>
+      rw [go_of_nonempty l ls hk] at h
+      cases hr : minIndent.go ls false with
+      | none =>
+        rw [hr] at h; simp only [Option.some.injEq] at h; subst h
+        have hall := go_none ls hr
+        refine ⟨fun x hx hx2 => ?_, l, List.mem_cons_self, hk, rfl⟩
+        rcases List.mem_cons.mp hx with rfl | hx
+        · exact Nat.le_refl _
+        · rw [hall x hx] at hx2; cases hx2
+      | some m' =>
+        rw [hr] at h; simp only [Option.some.injEq] at h; subst h
+        obtain ⟨h1, l', hl', hk', h2⟩ := ih m' hr
+        refine ⟨fun x hx hx2 => ?_, ?_⟩
+        · rcases List.mem_cons.mp hx with rfl | hx
+          · exact Nat.min_le_left _ _
+          · exact Nat.le_trans (Nat.min_le_right _ _) (h1 x hx hx2)
+        · by_cases hle : indentOf l.content ≤ m'
+          · exact ⟨l, List.mem_cons_self, hk, by rw [Nat.min_eq_left hle]⟩
+          · exact ⟨l', List.mem_cons_of_mem _ hl', hk', by rw [h2, Nat.min_eq_right (by omega)]⟩
+
+/-- **The strip.** Removing `m` columns takes away leading blanks, counted exactly like the measure
+    (a space 1, a tab 4, a tab that straddles the boundary goes whole), and nothing else:
+    a blank prefix that measures exactly `m` is removed exactly; a line whose leading blanks measure
+    at most `m` loses all of them and nothing of its text. -/
+theorem C30_dropCols_spec (p q l : List Char) (hp : IsIndent p) :
+    dropCols (indentOf p) (p ++ q) = q ∧
+    (∀ m, indentOf p ≤ m → (∀ c r, l = c :: r → c ≠ ' ' ∧ c ≠ '\t') → dropCols m (p ++ l) = l) ∧
+    (∀ m, indentOf p < m → m ≤ indentOf p + 4 → dropCols m (p ++ '\t' :: q) = q) := by
+  refine ⟨dropCols_indent p q hp, ?_, ?_⟩
+  · intro m hm hl
+    induction p generalizing m with
+    | nil =>
+      simp only [List.nil_append]
+      cases m with
+      | zero => rw [dropCols]
+      | succ k =>
+        cases l with
+        | nil => rw [dropCols]; intro r h; cases h; intro r h; cases h
+        | cons c r =>
+          obtain ⟨h1, h2⟩ := hl c r rfl
+          rw [dropCols]
+          · intro r' h; cases h; exact h1 rfl
+          · intro r' h; cases h; exact h2 rfl
+    | cons c cs ih =>
+      have hc := hp c (by simp)
+      have ih' := ih (fun d hd => hp d (by simp [hd]))
+      rcases hc with rfl | rfl
+      · simp only [List.cons_append, indentOf] at hm ⊢
+        obtain ⟨k, rfl⟩ : ∃ k, m = k + 1 := ⟨m - 1, by omega⟩
+        rw [dropCols]; exact ih' k (by omega)
+      · simp only [List.cons_append, indentOf] at hm ⊢
+        obtain ⟨k, rfl⟩ : ∃ k, m = k + 1 := ⟨m - 1, by omega⟩
+        rw [dropCols]; exact ih' (k + 1 - 4) (by omega)
+  · intro m h1 h2
+    induction p generalizing m with
+    | nil =>
+      simp only [indentOf, List.nil_append] at h1 h2 ⊢
+      obtain ⟨k, rfl⟩ : ∃ k, m = k + 1 := ⟨m - 1, by omega⟩
+      rw [dropCols, show k + 1 - 4 = 0 by omega, dropCols]
+    | cons c cs ih =>
+      have hc := hp c (by simp)
+      have ih' := ih (fun d hd => hp d (by simp [hd]))
+      rcases hc with rfl | rfl
+      · simp only [List.cons_append, indentOf] at h1 h2 ⊢
+        obtain ⟨k, rfl⟩ : ∃ k, m = k + 1 := ⟨m - 1, by omega⟩
+        rw [dropCols]; exact ih' k (by omega) (by omega)
+      · simp only [List.cons_append, indentOf] at h1 h2 ⊢
+        obtain ⟨k, rfl⟩ : ∃ k, m = k + 1 := ⟨m - 1, by omega⟩
+        rw [dropCols]; exact ih' (k + 1 - 4) (by omega) (by omega)
+
+/-- **Every line minus the common measured prefix.** Whatever the lines and their individual
+    indentations, the assembled text is the lines, each stripped of `m` columns, joined by `\n`. -/
+theorem C30_assemble_each_line (ls : List MLine) (m : Nat) :
+    assemble ls false (some m) = joinLines (ls.map (fun l => dropCols m l.content)) := by
+  simp only [assemble, Option.getD_some]
+  generalize true = first
+  induction ls generalizing first with
+  | nil => simp [assemble.go, joinLines]
+  | cons l ls ih =>
+    cases ls with
+    | nil => simp [assemble.go, joinLines]
+    | cons l2 ls2 =>
+      have := ih false
+      simp only [List.map_cons] at this ⊢
+      rw [assemble.go]
+      · simp only [Bool.and_false, Bool.false_eq_true, if_false, joinLines, this]
+      · intro h; cases h
 
 -- ---------------------------------------------------------------- triple-quoted: from the source text
 
